@@ -10,10 +10,14 @@ package ecs
 //@      (forall i uint8 :: mhas(f.mask, i) ==> mhas(m, i))
 //@   && (f.hasWithout ==> (forall i uint8 :: !(mhas(f.without, i) && mhas(m, i))))
 
+// the same relation on mask words (quantifier free); filterMatchesView proves the two equal
+//@ spec func filterMatchesW(f filter, m bitMask) bool := msub(f.mask, m) && (!f.hasWithout || mdisj(f.without, m))
+//@ lemma filterMatchesView(f filter, m bitMask) serves C03 C05 C06 := filterMatchesW(f, m) == filterMatches(f, m)
+
 //@ func (*filter).matches
 //@   serves C03 C05 C06
 //@   requires mask != nil
-//@   ensures  spec: result == filterMatches(*f, *mask)
+//@   ensures  specw: result == filterMatchesW(*f, *mask)
 //@   modifies nothing
 
 //@ func (filter).Exclusive
